@@ -33,13 +33,20 @@ type Replay struct {
 }
 
 func (p *Replay) Next(s *Sim, r []*Task, cur *Task) *Task {
-	for p.i < len(p.Segs) && p.n >= p.Segs[p.i].Steps {
+	for p.i < len(p.Segs) && !p.Segs[p.i].Kill && p.n >= p.Segs[p.i].Steps {
 		p.i++
 		p.n = 0
 	}
 	if p.i < len(p.Segs) {
-		p.n++
 		id := p.Segs[p.i].Task
+		if p.Segs[p.i].Kill {
+			// the scheduler kills the task at this decision (its crash
+			// fault is addressed at the call it is parked at)
+			p.i++
+			p.n = 0
+		} else {
+			p.n++
+		}
 		for _, t := range r {
 			if t.ID == id {
 				return t
